@@ -104,6 +104,17 @@ GW = {
     "falling_c": {"method": "Constant", "series": [[0, 0.5], [15, 1.4], [28, 2.8]]},
 }
 
+# expert-level soil options (Soil keyword arguments); "default" leaves the constructor defaults
+SOILOPT = {
+    "default": {},
+    "evapz_fixed": {"evap_z_min": 0.15, "evap_z_max": 0.15},  # evaporation layer of fixed thickness
+    "evapz_wide": {"evap_z_min": 0.1, "evap_z_max": 0.4},
+    "kex_fevap": {"kex": 1.25, "f_evap": 2, "f_wrel_exp": 0.6},
+    "fwcc100": {"fwcc": 100},
+    "rew_calc": {"adj_rew": 0, "calc_cn": 1},
+    "cr_shape": {"fshape_cr": 4, "z_top": 0.2},
+}
+
 IWC_KINDS = ["WP", "FC", "SAT", "Pct50", "Depth"]
 
 WINDOWS = {  # (start offset in days relative to first planting, n seasons, trailing days after last planting year's harvest)
@@ -125,6 +136,7 @@ WATER_MENUS = {
     "crop": ["maize.2", "cotton.2", "potato.2", "rice.2"],
     "word": ["normal", "mix", "wet", "dry"],
     "win": ["w2", "w1"],
+    "soilopt": list(SOILOPT),
 }
 
 
@@ -219,6 +231,9 @@ def resolve_irr(ir, planting_dates, length):
                 offs = [(-3, 25.0), (length + 15, 25.0)]
             elif sch == "empty":
                 offs = []
+            elif sch == "beyond_window":
+                # rows dated before the simulation start and after its end, around two in-season events
+                offs = [(-400, 30.0), (-60, 17.0), (-50, 14.0), (-30, 22.0), (-7, 18.0), (3, 12.0), (max(5, length - 5), 9.0), (length + 500, 40.0), (length + 900, 40.0)]
             else:
                 raise ValueError(sch)
             for o, dep in offs:
@@ -236,6 +251,7 @@ def to_spec(c, planting="05/01", year=2001):
     soil = copy.deepcopy(SOILS[c["soil"]])
     soil["dz"] = DZ[c.get("dz", "d12")]
     soil.setdefault("kw", {})
+    soil["kw"].update(SOILOPT[c.get("soilopt", "default")])
     soil["kw"].update(c.get("soilkw") or {})
     if soil["type"] == "ac_TunisLocal":
         soil["dz"] = None
@@ -280,6 +296,7 @@ def _b(**kw):
         "crop": "maize.2",
         "word": "mix",
         "win": "w2",
+        "soilopt": "default",
     }
     base.update(kw)
     return base
